@@ -232,6 +232,44 @@ func init() {
 		} else {
 			c.Fail("C22d/Spec.ValidateSpec/cu-range-enforced", c.P.Pos(sv.Pos()), "an API whose compute units are outside [minCU, maxCU] can pass validation")
 		}
+		c.Rule("C22e stored specs stay raw: RefreshSpec expands its argument in place (DoExpandSpec merges into the argument's own collections), so what it writes back with SetSpec must be the spec re-read from the store with GetSpec after the expansion, never the expanded object or a shallow copy of it")
+		if rs := c.Fn("x/spec/keeper.Keeper.RefreshSpec"); rs != nil {
+			sets := c.CallsByName(rs, false, "x/spec/keeper.Keeper.SetSpec")
+			exps := c.CallsByName(rs, false, "x/spec/types.DoExpandSpec")
+			if len(sets) != 1 || len(exps) != 1 {
+				c.Undecided("C22e: expected one SetSpec and one DoExpandSpec call in RefreshSpec, found %d and %d", len(sets), len(exps))
+			} else {
+				reread := func(in ssa.Instruction) bool {
+					st, ok := in.(*ssa.Store)
+					if !ok {
+						return false
+					}
+					if _, isAlloc := st.Addr.(*ssa.Alloc); !isAlloc {
+						return false
+					}
+					d := ir.Desc(st.Val)
+					return strings.HasPrefix(d, "call(x/spec/keeper.Keeper.GetSpec)(") && strings.HasSuffix(d, "#0") && (exps[0].Instr.Block().Dominates(st.Block()) && exps[0].Instr.Block() != st.Block() || instrBefore(exps[0].Instr, st))
+				}
+				okStore := c.mustPassBefore(rs, sets[0].Instr, reread)
+				// and the stored value is that re-read variable (the parameter's slot), not another local
+				arg := ir.CallOf(sets[0].Instr).Args[2]
+				okArg := false
+				if ld, ok := arg.(*ssa.UnOp); ok {
+					if a, ok := ld.X.(*ssa.Alloc); ok && a.Referrers() != nil {
+						for _, r := range *a.Referrers() {
+							if st, ok := r.(*ssa.Store); ok && st.Addr == ssa.Value(a) && reread(st) {
+								okArg = true
+							}
+						}
+					}
+				}
+				if okStore && okArg {
+					c.OK("C22e/RefreshSpec/stores-the-spec-re-read-after-expansion", c.P.InstrPos(sets[0].Instr), "spec, _ = GetSpec(...) between DoExpandSpec and SetSpec")
+				} else {
+					c.Fail("C22e/RefreshSpec/stores-the-spec-re-read-after-expansion", c.P.InstrPos(sets[0].Instr), "RefreshSpec writes back a spec that was not re-read from the store after DoExpandSpec: the expansion's in-place merges (shared *ApiCollection objects) are frozen into the stored raw spec")
+				}
+			}
+		}
 		c.NotCovered("completeness/no-duplicates of the expansion as a value property; field-level inheritance inside InheritAllFields/CombineWithOthers")
 	})
 }
